@@ -56,7 +56,7 @@ def check_dense(problems):
     else:
         inner_ifs = [n for n in guards[0].body if isinstance(n, ast.If)]
         tests = sorted(ast.unparse(n.test) for n in inner_ifs)
-        if tests != ["isinstance(self, _SubTensorDict)", "not any_set"]:
+        if tests != ["isinstance(result, _SubTensorDict)", "not any_set"]:
             problems.append(f"TensorDict._apply_nest: conditions on the write-back changed: {tests}")
     # (2) recursion: what is forwarded
     rec = _calls(loop, lambda c: _attr(c) == "_apply_nest")
@@ -87,7 +87,7 @@ def check_dense(problems):
                    "[_other._get_str(key, default=NO_DEFAULT) for _other in others]", "[_other._get_str(key, default=default) for _other in others]"])
     if assigns != want:
         problems.append(f"TensorDict._apply_nest: the operands passed on are no longer looked up by key only: {assigns}")
-    sub = [n for n in ast.walk(loop) if isinstance(n, ast.If) and ast.unparse(n.test) == "isinstance(self, _SubTensorDict)"]
+    sub = [n for n in ast.walk(loop) if isinstance(n, ast.If) and ast.unparse(n.test) == "isinstance(result, _SubTensorDict)"]
     if len(sub) != 1 or [ast.unparse(x) for x in sub[0].body] != ["result.set(key, item_trsf, inplace=inplace)"]:
         problems.append("TensorDict._apply_nest: the sub-tensordict write-back is no longer an unconditional result.set(key, item_trsf, inplace=inplace)")
     # (5) tail
